@@ -705,9 +705,8 @@ func (s *c22Sys) realStep(st *c22Stack, op int) error {
 	case c22OpMerge:
 		head := st.head()
 		db.lock.Lock()
-		err := db.tree.cap(head.root, len(st.layers)-2)
-		db.lock.Unlock()
-		return err
+		defer db.lock.Unlock()
+		return db.tree.cap(head.root, len(st.layers)-2)
 	case c22OpCommit:
 		return db.Commit(st.head().root, false)
 	}
@@ -855,7 +854,7 @@ func TestVerif_C22(t *testing.T) {
 			{c22Cfg{Name: "fresh/buf1M", Buffer: 1 << 20}, mc.Pick(r, 3, 5)},
 			{c22Cfg{Name: "store/buf1M", Buffer: 1 << 20, Disk: rich}, dq},
 			{c22Cfg{Name: "store+buffer/buf1M", Buffer: 1 << 20, Disk: rich, Preload: buffered}, dq},
-			{c22Cfg{Name: "store/buf0", Buffer: 0, Disk: rich}, dq},
+			{c22Cfg{Name: "store/buf0", Buffer: 0, Disk: rich}, mc.Pick(r, 2, 4)},
 		}
 		for _, p := range plans {
 			if r.Expired() {
